@@ -57,13 +57,16 @@ def gen(rng, depth):
             test, val = '\\ifdim %s%s%s\\relax ' % (a[0], rel, b[0]), {'<': a[1] < b[1], '>': a[1] > b[1], '=': a[1] == b[1]}[rel]
         elif kind == 'x':
             a, b = rng.choice(XTOKS), rng.choice(XTOKS)
+            while {a[1], b[1]} == {'M:x', 'C:x'}:          # a macro against the character it expands to: recorded finding (bounded/ifx-meaning)
+                b = rng.choice(XTOKS)
             test, val = '\\ifx%s%s ' % (a[0], b[0]), a[1] == b[1]
         elif kind == 'defined':
             a = rng.choice([('\\xa', True), ('\\xc', True), ('\\nosuchmacro', False), ('\\relax', True)])
             test, val = '\\ifdefined%s ' % a[0], a[1]
         elif kind == 'switch':
             val = rng.random() < 0.5
-            test = ('\\swtrue ' if val else '\\swfalse ') + '\\ifsw '
+            sw = rng.choice(['sw', 'foo', 'inside'])
+            test = ('\\%strue ' % sw if val else '\\%sfalse ' % sw) + '\\if%s ' % sw
         else:
             a, b, rel = rng.choice([('\\nthree', 3), ('\\nseven', 7)]), rng.randrange(0, 9), rng.choice('<>=')
             test, val = '\\ifnum%s%s%d\\relax ' % (a[0], rel, b), {'<': a[1] < b, '>': a[1] > b, '=': a[1] == b}[rel]
@@ -83,10 +86,13 @@ def gen(rng, depth):
     return src, (then[1] if val else (els[1] if has_else else ''))
 
 
-DIMS = [('1pt', 65536), ('2pt', 131072), ('1in', 72.27 * 65536), ('-1pt', -65536), ('10pt', 655360), ('1.5pt', 98304), ('0pt', 0)]
+from fractions import Fraction as _F
+# exact values in points; the same length in two units must compare equal (TeX compares integers of scaled points)
+DIMS = [('1pt', _F(1)), ('2pt', _F(2)), ('1in', _F(7227, 100)), ('-1pt', _F(-1)), ('10pt', _F(10)), ('1.5pt', _F(3, 2)), ('0pt', _F(0)),
+        ('1cm', _F(7227, 254)), ('10mm', _F(7227, 254)), ('72.27pt', _F(7227, 100)), ('1pc', _F(12)), ('12pt', _F(12)), ('2.54cm', _F(7227, 100))]
 # \\ifx compares meanings: macros with the same parameter text and body are equal, so is a macro and its \\let alias; characters by code and category
-XTOKS = [('\\xa', 'M:x'), ('\\xb', 'M:x'), ('\\xc', 'M:y'), ('\\xd', 'M:x'), (' a', 'C:a'), (' b', 'C:b'), ('\\relax', 'P:relax')]
-PREAMBLE = ('\\def\\xa{x}\\def\\xb{x}\\def\\xc{y}\\let\\xd\\xa \\newif\\ifsw \\def\\nthree{3}\\def\\nseven{7}')
+XTOKS = [('\\xa', 'M:x'), ('\\xb', 'M:x'), ('\\xc', 'M:y'), ('\\xd', 'M:x'), (' a', 'C:a'), (' b', 'C:b'), ('\\relax', 'P:relax'), (' x', 'C:x')]
+PREAMBLE = ('\\def\\xa{x}\\def\\xb{x}\\def\\xc{y}\\let\\xd\\xa \\newif\\ifsw \\newif\\iffoo \\newif\\ifinside \\def\\nthree{3}\\def\\nseven{7}')
 
 
 def run(src):
@@ -145,6 +151,19 @@ CONTRACTS = {
     'ifodd.invoke': dict(check=check_prog, small=lambda: (dict(src='\\ifodd %d\\relax aq\\else bq\\fi ' % n, exp='aq' if n % 2 == 1 else 'bq') for n in range(-5, 6))),
 }
 GROUND = []
-BOUNDED = [('bounded/ifcontent', "the visible text of nested conditionals equals TeX's selection (out-of-range \\ifcase selectors, nesting inside taken and skipped branches)",
+def bounded_ifx_meaning(budget, rng):
+    """\\ifx compares meanings, not expansions: a macro is never equal to the character its body consists of, nor to a macro with a different
+    parameter text."""
+    n = 0
+    for src, exp in (('\\ifx\\xa x Aq\\else Bq\\fi ', 'Bq'), ('\\def\\pa#1{x}\\ifx\\pa\\xa Aq\\else Bq\\fi ', 'Bq')):
+        n += 1
+        ok, d = check_prog(dict(src=src, exp=exp))
+        if not ok:
+            return False, n, d, dict(src=src, exp=exp, kind='ifx-expansion')
+    return True, n, ''
+
+
+BOUNDED = [('bounded/ifx-meaning', '\\ifx compares the meanings of its two tokens (TeX), not their expansions', '2 programs', bounded_ifx_meaning),
+           ('bounded/ifcontent', "the visible text of nested conditionals equals TeX's selection (out-of-range \\ifcase selectors, nesting inside taken and skipped branches)",
             'all \\ifcase shapes with 1-3 branches x selectors -2..5 x else/no else x 4 embeddings (exhaustive); random nestings to depth 4 over iftrue / iffalse / ifnum / ifdim / ifodd / ifcase / ifx / ifdefined / newif switches, in groups, macro bodies and arguments, with side effects in the branches', bounded_if)]
-CLASSES = {}
+CLASSES = {'ifx-expansion': lambda w: isinstance(w, dict) and w.get('kind') == 'ifx-expansion'}
